@@ -71,13 +71,20 @@ def var_name(value):
     return m.group(1) if m else None
 
 
+def sel_key(text):
+    """Selector compared by token value (quote style, escape spelling and comments do not matter; whitespace collapsed)."""
+    if text is None:
+        return None
+    return css_tokens.norm_tokens(css_tokens.tokenize(text), drop_comments=True)
+
+
 def output_model(out_text):
-    """{selector: [declaration lists...]}, custom property table of the written file (:root wins over html)."""
+    """{selector key: [(declaration list, at-rule path) in document order]}, custom property table (:root wins over html)."""
     rules = css_tokens.find_rules(out_text)
     defs_html, defs_root = {}, {}
     by_sel = {}
-    for sel, decls, path in rules:
-        by_sel.setdefault(sel, []).append((decls, path))
+    for sel, decls, path, key in rules:
+        by_sel.setdefault(key, []).append((decls, path))
         if sel in (":root", "html"):
             for d in decls:
                 if d[0] == "decl" and d[1].startswith("--"):
